@@ -159,6 +159,9 @@ func addVocab(m map[string]Intrinsic) {
 	m["vocab.vRunPending"] = func(vm *VM, fn *ssa.Function, args []Value) Value {
 		return mkBV(64, uint64(vm.runPendingGoroutines()))
 	}
+	m["vocab.vRunPendingAt"] = func(vm *VM, fn *ssa.Function, args []Value) Value {
+		return mkBV(64, uint64(vm.runPendingAt(constInt(vm, args[0], "vRunPendingAt index"))))
+	}
 	m["vocab.vDropPending"] = func(vm *VM, fn *ssa.Function, args []Value) Value {
 		n := len(vm.P.pending)
 		vm.P.pending = nil
